@@ -20,7 +20,7 @@ RULE = (
 )
 ASSUMPTIONS = [
     "violation_msg and the client assigned to a refused new order are diagnostic and not part of the compared state",
-    "Betfair-live and Betdaq execution paths use the same Transaction code; they are exercised on the live double by C11/C12",
+    "the Betfair-live execution path uses the same Transaction code and is exercised on the live double by C11/C12; for Betdaq the transaction / package layer is driven with a real BetdaqClient and real Betdaq orders (execution tasks are queued, never run; acknowledgement is set the way the execution layer sets it)",
 ]
 CHECKS = ("noeffect",)
 
@@ -36,10 +36,192 @@ def sub_bulk(col, budget, seed, tier, shard, nshards):
           rule_weights={"bulk": 5, "place": 0, "follow": 0, "place_existing": 0, "remove": 0, "close": 0, "inplay": 0, "suspend": 0})
 
 
+# ---- Betdaq client: the same Transaction code with BetdaqOrderPackage limits (10 / 10 / 50) -------------------
+
+
+def betdaq_case():
+    from hypothesis import strategies as st
+
+    return st.fixed_dictionaries({
+        "n_place": st.sampled_from([0, 1, 9, 10, 11, 25]),
+        "bad": st.lists(st.sampled_from(["price", "size0", "size3dp", None, None]), min_size=0, max_size=4),
+        "n_cancel": st.sampled_from([0, 1, 10, 11, 23]),
+        "n_update": st.sampled_from([0, 1, 49, 50, 51]),
+        "mvs": st.sampled_from([[None], [None, 7], [7, 8, None]]),
+        "extra": st.lists(st.sampled_from(["cancel_reduction", "replace", "cancel_unacked", "update_unacked", "place_twice"]), max_size=4),
+    })
+
+
+def check_betdaq(c):
+    from flumine import Flumine, BaseStrategy, clients
+    from flumine.exceptions import FlumineException
+    from flumine.order.order import BetdaqOrder
+    from flumine.order.ordertype import BetdaqLimitOrder
+    from flumine.order.trade import Trade
+    from .. import simlab, livedouble, world
+    from ..common import Violation
+    import types
+
+    with simlab.clean_config({"simulated": False}):
+        client = clients.BetdaqClient(betting_client=types.SimpleNamespace(username="bdq"), username="bdq", order_stream=False)
+        fw = Flumine(client)
+        pool = livedouble.Deferred()
+        fw.betdaq_execution._thread_pool.shutdown(wait=False)
+        fw.betdaq_execution._thread_pool = pool
+        fw.betdaq_execution._get_http_session = lambda: None
+        pkgs = []
+        orig = fw.process_order_package
+        fw.process_order_package = lambda p: (pkgs.append(p), orig(p))[1]
+        try:
+            from flumine.streams.historicalstream import HistoricListener
+            from flumine.events import events
+
+            spec = world.default_market(0, 3)
+            r = world.Renderer(spec)
+            r.first()
+            lst = HistoricListener(max_latency=None, update_clk=False)
+            lst.register_stream(10, "marketSubscription")
+            lst.on_data(r.lines[-1])
+            fw._process_market_books(events.MarketBookEvent([x.create_resource(10, snap=True) for x in lst.stream._caches.values()]))
+            m = fw.markets.markets[spec["id"]]
+            strat = BaseStrategy(market_filter={"x": 1}, name="bq", max_order_exposure=None, max_selection_exposure=None,
+                                 max_trade_count=10**6, max_live_trade_count=10**6)
+            fw.strategies(strat, fw.clients, fw)
+
+            def mk(price=2.0, size=2.0, runner=0):
+                t = Trade(spec["id"], spec["runners"][runner]["id"], 0, strat)
+                return t.create_betdaq_order("BACK", BetdaqLimitOrder(price, size, 1, 0, 0))
+
+            def snap(o):
+                rc = strat._invested.get(o.lookup)
+                return (o.status, tuple(o.status_log), dict(o.update_data), o.order_type.price, o.order_type.size, o.bet_id, o.id in m.blotter, len(m.blotter),
+                        o.trade.status, tuple(o.trade.status_log), None if rc is None else (tuple(rc.trades), tuple(rc.live_trades)))
+
+            # ---- bulk placements in one transaction (incl. invalid ones that must be refused without effect)
+            n0 = len(pkgs)
+            accepted = []
+            with m.transaction(client=client) as t:
+                for i in range(c["n_place"]):
+                    o = mk(size=2.0 + (i % 5))
+                    mv = c["mvs"][i % len(c["mvs"])]
+                    if t.place_order(o, market_version=mv):
+                        accepted.append((o, mv))
+                for b in c["bad"]:
+                    o = mk(price=2.003 if b == "price" else 2.0, size=0.0 if b == "size0" else 2.005 if b == "size3dp" else 2.0)
+                    before_rc = {k: (tuple(v.trades), tuple(v.live_trades)) for k, v in strat._invested.items()}
+                    nb = len(m.blotter)
+                    ok = t.place_order(o)
+                    if b is None:
+                        if ok:
+                            accepted.append((o, None))
+                        continue
+                    after_rc = {k: (tuple(v.trades), tuple(v.live_trades)) for k, v in strat._invested.items() if k in before_rc}
+                    if ok or o.status.name != "VIOLATION" or o.id in m.blotter or len(m.blotter) != nb or after_rc != before_rc:
+                        raise Violation("refused-new-order-state", ("betdaq", b), "invalid Betdaq order (%s): accepted=%s status=%s in blotter=%s" % (b, ok, o.status, o.id in m.blotter), c)
+            _check_pkgs(pkgs[n0:], [(o, mv) for o, mv in accepted], "PLACE", 10, t, c, versioned=True)
+            placed = [o for o, _ in accepted]
+            # ---- requests on orders that are not acknowledged yet are rejected without effect
+            for what in c["extra"]:
+                if not placed:
+                    break
+                o = placed[0]
+                b4 = snap(o)
+                np_ = len(pkgs)
+                try:
+                    if what == "cancel_unacked":
+                        res = m.cancel_order(o)
+                    elif what == "update_unacked":
+                        res = m.update_order(o, size_delta=1.0)
+                    elif what == "replace":
+                        res = m.replace_order(o, 3.0)
+                    elif what == "place_twice":
+                        res = m.place_order(o, client=client)
+                    else:
+                        continue
+                    err = None
+                except FlumineException as e:
+                    res, err = None, e
+                if res is True or snap(o) != b4 or len(pkgs) != np_:
+                    raise Violation("refused-request-changed-state", ("betdaq", what), "%s on an unacknowledged Betdaq order: result %s error %s, state %s -> %s" % (what, res, err, b4, snap(o)), c)
+            # ---- acknowledge (as the execution layer would) and issue bulk cancels / updates
+            for i, o in enumerate(placed):
+                o.bet_id = 5000 + i
+                o.executable()
+            if "cancel_reduction" in c["extra"] and placed:
+                o = placed[-1]
+                b4 = snap(o)
+                try:
+                    res = m.cancel_order(o, size_reduction=1.0)
+                except FlumineException:
+                    res = None
+                if res is True or snap(o) != b4:
+                    raise Violation("refused-request-changed-state", ("betdaq", "cancel-with-reduction"), "Betdaq cancel with a size reduction must be rejected without effect", c)
+            n0 = len(pkgs)
+            acc = []
+            with m.transaction(client=client) as t:
+                for o in placed[: c["n_cancel"]]:
+                    if t.cancel_order(o):
+                        acc.append((o, None))
+            _check_pkgs(pkgs[n0:], acc, "CANCEL", 10, t, c)
+            n0 = len(pkgs)
+            acc = []
+            rest = placed[c["n_cancel"]:]
+            while len(rest) < c["n_update"] and len(rest) < 60:
+                o = mk()
+                if m.place_order(o, client=client):
+                    o.bet_id = 9000 + len(rest)
+                    o.executable()
+                    rest.append(o)
+                else:
+                    break
+            n0 = len(pkgs)
+            with m.transaction(client=client) as t:
+                for o in rest[: c["n_update"]]:
+                    if t.update_order(o, size_delta=1.0, new_price=3.0):
+                        acc.append((o, None))
+            _check_pkgs(pkgs[n0:], acc, "UPDATE", 50, t, c)
+        finally:
+            fw.simulated_execution.shutdown()
+            fw.betfair_execution.shutdown()
+    nt = c["n_place"] > 10 or c["n_cancel"] > 10 or c["n_update"] > 50 or bool([b for b in c["bad"] if b]) or bool(c["extra"])
+    return nt, ("betdaq",)
+
+
+def _check_pkgs(pk, accepted, kind, limit, txn, c, versioned=False):
+    from ..common import Violation
+
+    sent = []
+    for p in pk:
+        if p.package_type.name != kind:
+            raise Violation("package-kind", (kind, "betdaq"), "package type %s in a %s transaction" % (p.package_type.name, kind), c)
+        if not (0 < len(p._orders) <= limit):
+            raise Violation("package-over-limit", (kind, "betdaq"), "%d instructions in one Betdaq %s package (limit %d)" % (len(p._orders), kind, limit), c)
+        for o in p._orders:
+            sent.append((id(o), p._market_version))
+    exp = [(id(o), mv) for o, mv in accepted]
+    if sorted(sent) != sorted(exp):
+        raise Violation("accepted-request-not-sent-once", (kind.lower(), "betdaq"), "%d accepted requests, %d orders in packages (or market versions differ)" % (len(exp), len(sent)), c)
+    for mv in {v for _, v in exp}:
+        if [i for i, v in sent if v == mv] != [i for i, v in exp if v == mv]:
+            raise Violation("package-order", (kind, "betdaq"), "request order not preserved", c)
+    if txn._pending_place or txn._pending_cancel or txn._pending_update or txn._pending_replace or txn._pending_orders:
+        raise Violation("transaction-left-pending", ("betdaq",), "pending lists not empty after the transaction ended", c)
+
+
+def sub_betdaq(col, budget, seed, tier, shard, nshards):
+    from ..common import run_given
+
+    run_given(col, betdaq_case(), check_betdaq, budget, seed, tier, "betdaq")
+
+
 def subchecks(tier):
     q = tier == "quick"
-    return [SubCheck("requests", sub_machine, 1400 if q else 40000), SubCheck("bulk", sub_bulk, 160 if q else 4000)]
+    return [SubCheck("requests", sub_machine, 1400 if q else 40000), SubCheck("bulk", sub_bulk, 160 if q else 4000),
+            SubCheck("betdaq", sub_betdaq, 400 if q else 8000)]
 
 
 def replay(case, sub=None):
-    replay_trace(SimWorld, CHECKS, case)
+    if isinstance(case, dict) and "n_place" in case:
+        check_betdaq(case)
+    else:
+        replay_trace(SimWorld, CHECKS, case)
